@@ -133,11 +133,11 @@ Definition direct_bits_rust_loop (buf : list Z) (pos range code count : Z) : out
    repaired:    ... && count as usize <= buf.len().saturating_sub(pos)  { return asm }          *)
 Definition direct_bits_dispatch_old (opt : bool) (buf : list Z) (pos range code count : Z) : outcome (Z * Z * Z * Z) :=
   if opt && (0 <? count) then direct_bits_asm buf pos range code count
-  else Ok (direct_bits_portable buf pos range code count).
+  else direct_bits_rust_loop buf pos range code count.
 
 Definition direct_bits_dispatch (opt : bool) (buf : list Z) (pos range code count : Z) : outcome (Z * Z * Z * Z) :=
   if opt && (0 <? count) && (count <=? Z.max 0 (zlen buf - pos)) then direct_bits_asm buf pos range code count
-  else Ok (direct_bits_portable buf pos range code count).
+  else direct_bits_rust_loop buf pos range code count.
 
 (* RangeDecoder<RangeDecoderBuffer>::is_finished on (len, pos, code) *)
 Definition buffer_is_finished (len pos code : Z) : bool := (pos =? len) && (code =? 0).
